@@ -93,6 +93,10 @@ def trace_request(tag, params, k):
         return "trace %s assign %d %s %s %s %s" % (tag, k, m.group(1), used(m.group(2)), m.group(3), used(m.group(4)))
     if prog == "dense_resize": return "trace %s dense_resize %d %s %s %s" % (tag, k, kv["cap"], nlist(kv["coeffs"]), kv["new"])
     if prog == "dense_copy": return "trace %s dense_copy %d %s %s" % (tag, k, kv["cap"], nlist(kv["coeffs"]))
+    if prog == "dense_copy_sized": return "trace %s dense_copy_sized %d %s %s %s" % (tag, k, nlist(kv["coeffs"]), kv["sz"], kv["capacity"])
+    if prog == "dense_copy_cap": return "trace %s dense_copy_cap %d %s %s %s" % (tag, k, kv["cap"], nlist(kv["coeffs"]), kv["capacity"])
+    if prog == "dense_resize2": return "trace %s dense_resize2 %d %s %s %s %s" % (tag, k, kv["cap"], nlist(kv["coeffs"]), kv["new"], kv["capacity"])
+    if prog == "dense_from_sparse": return "trace %s dense_from_sparse %d %s %s" % (tag, k, kv["rsize"], used(kv["elems"]))
     if prog == "sv_reserve":
         return "trace %s sv_reserve %d %s %s %s %s 1" % (tag, k, kv["old_bytes"], kv["size"], str(int(kv["old_bytes"]) + 1) if int(kv["new_bytes"]) > 0 else "0", kv["new_bytes"])
     raise ValueError(params)
@@ -236,7 +240,7 @@ def report_sweeps(chk, mode, results, expect_exn):
     agg.flush(chk)
 
 
-QUICK_DOMAIN = ["C_Polyhedron.add_constraint_fresh", "C_Polyhedron.add_constraints_gen", "C_Polyhedron.intersection_assign_min", "C_Polyhedron.upper_bound_assign_fresh",
+QUICK_DOMAIN = ["C_Polyhedron.intersection_sorted_merge", "C_Polyhedron.add_constraint_fresh", "C_Polyhedron.add_constraints_gen", "C_Polyhedron.intersection_assign_min", "C_Polyhedron.upper_bound_assign_fresh",
                 "C_Polyhedron.affine_image_gen", "C_Polyhedron.minimized_generators_fresh", "C_Polyhedron.add_generator_min", "C_Polyhedron.copy_gen", "C_Polyhedron.assign_min",
                 "C_Polyhedron.remove_space_dimensions_min", "C_Polyhedron.widening_fresh", "C_Polyhedron.queries_min",
                 "NNC_Polyhedron.add_constraint_min", "NNC_Polyhedron.generalized_affine_image_fresh", "NNC_Polyhedron.topological_closure_gen", "NNC_Polyhedron.poly_hull_gens_fresh",
@@ -326,7 +330,7 @@ def run(chk):
         for v in rd["variants"]: chk.nontrivial.add(("rejdom",) + v)
         chk.extra["rejected_calls_other_domains"] = {"attempts": rd["attempts"], "by_domain": dict(rd["by_dom"]), "by_kind": dict(rd["by_kind"]),
                                                        "expectation_from_coq_ladder": rd["model_checked"], "failing_groups": len(rd["groups"]), "exhaustive": True}
-        if rd["rc"] != 0 or rd["attempts"] < 4000:
+        if rd["rc"] != 0 or rd["attempts"] < 5500:
             chk.failure({"mode": "rejdom", "dom": "harness", "what": "crash-or-incomplete"}, {"rc": rd["rc"], "attempts": rd["attempts"], "tail": rd["tail"]})
         for (r, m) in rd["model_disagrees_with_doc_table"]:
             chk.broken.append(("rejdom-model-vs-documentation-table", "%s: coq ladder says %s" % (r, m)))
